@@ -42,7 +42,11 @@ type staged struct {
 var mapping = map[string]string{}
 
 func load(rel string) *staged {
-	p := filepath.Join(*repo, rel)
+	return loadAbs(filepath.Join(*repo, rel))
+}
+
+func loadAbs(p string) *staged {
+	rel := p
 	fset := token.NewFileSet()
 	// Comments are dropped except build constraints (re-added on write):
 	// rewritten nodes displace them otherwise.
